@@ -621,6 +621,28 @@ class Verifier:
         rep.source_hash = self.world.source_hash(closure)
         rep.file = os.path.relpath(closure.module.path, self.repo_root)
         rep.lines = (closure.node.lineno, closure.node.end_lineno)
+        # decorators of the target: registration-only ones are dropped (listed),
+        # functools.lru_cache is modelled, anything else puts the function out of reach
+        self.cache_model = False
+        for d in getattr(closure.node, 'decorator_list', []):
+            ds = ast.unparse(d)
+            head = ds.split('(')[0]
+            if head in ('excel_helper', 'excel_math_func', 'excel_func', 'property', 'staticmethod',
+                        'classmethod', 'functools.wraps'):
+                self.world.dropped.add(f'decorator @{head} of {c.name} (metadata / binding only; the '
+                                       f'wrappers it selects have their own contracts)')
+            elif head in ('functools.lru_cache', 'lru_cache', 'functools.cache', 'cache'):
+                if 'typed=True' in ds:
+                    raise_unsup = 'lru_cache(typed=True)'
+                    rep.unsupported = f'unsupported:decorator {raise_unsup}'
+                    return rep
+                self.cache_model = True
+                self.world.trusted.add('A-LRUCACHE: functools.lru_cache returns the result computed for an '
+                                       'earlier call whose arguments compare and hash equal (True == 1 == 1.0); '
+                                       'unhashable arguments raise TypeError')
+            else:
+                rep.unsupported = f'unsupported:decorator @{ds} on {c.name}'
+                return rep
         self.active = c
         self.modular = {t: self.contracts[t] for t in c.modular if t in self.contracts}
         if c.decreases is not None:
@@ -669,6 +691,8 @@ class Verifier:
             for r in c.requires:
                 self.assume_spec(r, args)
             old = self.snapshot(args)
+            if self.cache_model:
+                args = self.cache_alias(args, names)
             call_args, call_kwargs = self.bind_for_call(c, closure, names, args)
             self.in_body = True
             try:
@@ -712,6 +736,55 @@ class Verifier:
             rep.paths += 1
             self.path_id += 1
             rep.records.extend(recs)
+
+    def cache_alias(self, args, names):
+        """lru_cache model: the body may have run on hash-equal arguments of another type."""
+        ex = self.world.explorer
+        out = []
+        prior = {}
+        for n, a in zip(names, args):
+            alts = [a]
+            if isinstance(a, (SBool, bool)):
+                t = a.t if isinstance(a, SBool) else z3.BoolVal(a)
+                alts.append(mk_int(z3.If(t, z3.IntVal(1), z3.IntVal(0))))
+            elif isinstance(a, (SInt, int)):
+                t = sym.as_int_term(a)
+                alts.append(('bool', t))
+                alts.append(mk_float(z3.ToReal(t)))
+            elif isinstance(a, (SFloat, float)):
+                t = sym.as_real_term(a)
+                alts.append(('int', t))
+            elif isinstance(a, list):
+                raise PyExc('TypeError', 'unhashable type: list (lru_cache)')
+            k = ex.choose(len(alts)) if len(alts) > 1 else 0
+            pick = alts[k]
+            if isinstance(pick, tuple) and pick[0] == 'bool':
+                if not ex.branch(z3.Or(pick[1] == 0, pick[1] == 1)):
+                    raise PathAbort()
+                pick = mk_bool(pick[1] == 1)
+            elif isinstance(pick, tuple) and pick[0] == 'int':
+                if not ex.branch(z3.ToReal(z3.ToInt(pick[1])) == pick[1]):
+                    raise PathAbort()
+                pick = mk_int(z3.ToInt(pick[1]))
+            if k:
+                prior[n] = pick
+            out.append(pick)
+        self.prior_alias = prior
+        if prior:
+            def dec(m, prior=dict(prior)):
+                o = {}
+                for n, v in prior.items():
+                    if isinstance(v, SInt):
+                        o[n] = model_int(m, v.t)
+                    elif isinstance(v, SBool):
+                        o[n] = bool(z3.is_true(m.eval(v.t, model_completion=True)))
+                    elif isinstance(v, SFloat):
+                        o[n] = dict(model_real(m, v.t), **{'$float': True})
+                    else:
+                        o[n] = v
+                return o
+            self.decoders['$prior_call'] = Decoder(dec)
+        return out
 
     def snapshot(self, args):
         """Values of the parameters on entry (immutable values are shared)."""
